@@ -40,7 +40,12 @@ sd_bus_open_system sd_bus_call_method sd_bus_message_read sd_bus_unref
 sd_bus_close sd_bus_message_unref sd_bus_error_free
 """.split()
 
-THREAD_WRAPS = []
+THREAD_WRAPS = """pthread_create pthread_join
+pthread_mutex_lock pthread_mutex_trylock pthread_mutex_unlock
+pthread_cond_wait pthread_cond_timedwait pthread_cond_clockwait
+pthread_cond_signal pthread_cond_broadcast
+epoll_wait accept connect setsockopt
+""".split()
 
 
 def oomd_sources():
